@@ -3,7 +3,7 @@
 From Coq Require Import List Arith NArith Bool String.
 From Coq.Strings Require Import Byte.
 From Peppi Require Import Base.Bytes Base.Outcome Base.Stream Layout.Syntax Gen.Funs Layout.Sem Layout.Rows
-  Model.Start Model.Parse Model.Reader Proofs.C08Proof.
+  Model.Ubjson Model.Start Model.Parse Model.Reader Model.Writer Model.Recorder Proofs.C08Proof Proofs.FrameStep Proofs.TableFacts Proofs.Irregular.
 Import ListNotations.
 
 (* an event whose code peppi does not know, declared in the payload table, is consumed whole and changes nothing
@@ -37,7 +37,18 @@ Theorem C08_start_ignores_suffix : forall blk extra s,
              st_bytes s' = blk ++ extra.
 Proof. exact c08_start_ignores_suffix. Qed.
 
+(* end to end: a whole file with unknown events (declared in the payload table) inserted ANYWHERE between Game Start
+   and Game End -- between splitter blocks, between and inside frames -- parses to exactly the game of the file
+   without them: no known field, frame row, gecko blob or end record is disturbed *)
+Theorem C08_unknown_events_anywhere : forall r st x h,
+  wf_replay r = true -> game_start (r_start r) = ROk st -> wf_irreg r st x ->
+  slp_read {| o_skip := false; o_hash := h |} (emit_irr r x)
+  = Ok (with_hashed (game_of {| o_skip := false; o_hash := h |} r st (end_of r))
+                    (if h then Some (List.length (emit_irr r x)) else None), []).
+Proof. exact read_irregular. Qed.
+
 Print Assumptions C08_unknown_event_skipped.
+Print Assumptions C08_unknown_events_anywhere.
 Print Assumptions C08_decoder_ignores_suffix.
 Print Assumptions C08_read_push_ignores_suffix.
 Print Assumptions C08_start_ignores_suffix.
